@@ -30,6 +30,7 @@ type grantedToken struct {
 	authTime int64
 	chain    int
 	flow     string
+	issuer   string // the tenant (issuer) the tokens were obtained from
 }
 
 type tokenWorld struct {
@@ -79,7 +80,7 @@ func (tw *tokenWorld) obtain(ch *kernel.Chooser) string {
 		return fmt.Sprintf("obtain %s/%s %v -> failed: %v", client, user, scopes, err)
 	}
 	g := &grantedToken{access: s.tokens.AccessToken, refresh: s.tokens.RefreshToken, idToken: s.tokens.IDToken, client: client,
-		subject: userID[user], scopes: scopes, original: scopes, flow: "code"}
+		subject: userID[user], scopes: scopes, original: scopes, flow: "code", issuer: w.Issuer}
 	if p := world.JWTPayload(g.idToken); p != nil {
 		if at, ok := p["auth_time"].(float64); ok {
 			g.authTime = int64(at)
